@@ -801,6 +801,17 @@ fn hybrid_rollup_case(ctx: &mut Ctx, r: &mut Rng) {
     if hyb_fuel > 0.0 { ctx.count("train.levels.consist_with_hybrid_that_burnt_fuel"); }
     let es = ef.abs().max(er.abs()).max(1.0);
     let got = guard(|| (con.get_energy_fuel().value, con.get_net_energy_res().value));
+    // the same request to the model (Altrios.Hyb.consistFuel / consistChem; theorems Proofs/C11Hyb.lean)
+    {
+        let toks = seq(&units, |l| match &l.loco_type {
+            PowertrainType::ConventionalLoco(c) => format!("conv {}", f(c.fc.state.energy_fuel.value)),
+            PowertrainType::BatteryElectricLoco(c) => format!("bel {}", f(c.res.state.energy_out_chemical.value)),
+            PowertrainType::HybridLoco(h) => format!("hyb {} {}", f(h.fc.state.energy_fuel.value), f(h.res.state.energy_out_chemical.value)),
+            _ => "unsupported".to_string(),
+        });
+        let a = match got { Some((a, bb)) => format!("ok {} {}", f(a), f(bb)), None => "panic".to_string() };
+        ctx.op("C11", "consist3_totals", &toks, &a);
+    }
     ctx.checked("C11", "fuel_and_battery_getters_count_every_unit");
     let ok = matches!(got, Some((a, bb)) if close(a, ef, es) && close(bb, er, es));
     if !ok {
